@@ -105,11 +105,13 @@ func init() {
 	lexUnverified := []string{"the recursive-descent parse* functions (about 60; they rest on the iterator contracts proved here but are not under contract themselves)", "the recombination check of ParseTLFile (string concatenation of all tokens equals the input) and ConsolePrint", "positions of the errors validateTokens reports (they are token positions; that all token positions are in range is proved per token when it is cut, not carried as a list invariant)"}
 	props = append(props, &PropCfg{
 		ID: "C19", Pkgs: []string{"./internal/tlast"}, Funcs: "",
-		Scope: "TL1 half: " + lexScope, Unverified: lexUnverified,
+		Scope: "TL1: " + lexScope + "; AND the whole TL1 recursive-descent parser below ParseTLFile (parseCombinator, parseFields, parseField, parseTypeRef and its variants, parseArithmetic..., 25 functions, mutually recursive): every parse function is free of index/slice/nil panics, its internal 'unexpected token' panics are unreachable, and it returns a valid iterator over the same token list at the same or a later position. What the parser needs to know about the text of a token of a given kind (an annotation has at least two bytes, a tag exactly nine) is a value invariant of the token type, proved where the lexer appends a token and assumed where the parser reads one",
+		Unverified: []string{"ParseTLFile itself: the recombination check (concatenation of all tokens equals the input) and the slicing of the input by token positions need that token positions are ordered, which is not carried through the token list", "assumed (trusted contracts): parseCommentBefore/parseCommentRight are only called on ranges of white-space tokens; tokens of the kinds lcIdentNS/ucIdentNS contain a dot (splitIdenNSFromToken); Combinator.crc32 and PositionRange.CollapseToEnd are pure", "positions of the errors the parser reports (they are token positions)", "ConsolePrint", "recursion depth"},
 	})
 	props = append(props, &PropCfg{
-		ID: "C20", Pkgs: []string{"./internal/tlast"}, Funcs: "",
-		Scope: "TL2 half (LexerLanguage == TL2 is one of the cases of the same functions): " + lexScope, Unverified: append([]string{"tlparser_tl2_code.go"}, lexUnverified...),
+		ID: "C20", Pkgs: []string{"./internal/tlast"},
+		Funcs: `^(\(\*lexer\)\.|\(\*tokenIterator\)\.|lowerCase$|upperCase$|digit$|letter$|identChar$|hex$|nameIdent$|builtinIdent$|numberLexeme$|parseErrToken$)`,
+		Scope: "TL2 half (LexerLanguage == TL2 is one of the cases of the same functions): " + lexScope, Unverified: append([]string{"tlparser_tl2_code.go (the TL2 recursive-descent parser)"}, lexUnverified[1:]...),
 	})
 	props = append(props, &PropCfg{
 		ID:    "C37",
